@@ -9,6 +9,9 @@
 
   Requests (one per line) → answers:
     m2l <Struct> <[fields]>        → ok <list> | error <kind> | panic <site>
+    m2ls <code>:<k><o>,... <[fields]>   the same over an explicit schema (k ∈ u i s m l = uint64 int
+                                   string map slice; o ∈ o - = omitempty or not)
+    rt <fmt> <Struct> <[fields]>   → msgToList, then the head check + listToMsg of <fmt>
     l2m <json|msgpack|cbor> <list> → ok <Struct> <[fields]> | error <kind> | panic <site>
     enc <fmt> <value>              → ok <hex> | invalid
     dec <fmt> <hex>                → ok <value> <hex rest> | unsupported | error
